@@ -68,6 +68,7 @@ partial def showPV : PV → String
   | .list l => "L[" ++ ",".intercalate (l.map showPV) ++ "]"
   | .tup l => "T(" ++ ",".intercalate (l.map showPV) ++ ")"
   | .arr l => "A[" ++ ";".intercalate (l.map showPV) ++ "]"
+  | .rat n d => "Q" ++ toString n ++ "/" ++ toString d
   | .set l => "S{" ++ ",".intercalate (l.map showPV) ++ "}"
   | .dict ks vs => "D{" ++ ";".intercalate ((ks.zip vs).map fun kv => showPV kv.1 ++ ":" ++ showPV kv.2) ++ "}"
 
